@@ -4,7 +4,8 @@
 import json, subprocess, sys, time
 from pathlib import Path
 SEEDED = Path("/verif/seeded")
-EXTRA = {"C03-1": ["C07"], "C04-2": ["C07"], "C07-1": ["C04"], "C01-1": ["C10"], "C10-1": ["C01"], "C19-1": ["C03"], "C19-2": ["C03"],
+EXTRA = {"C10-4": ["C18"], "C05-4": ["C09"], "C16-3": ["C06"], "C11-4": ["C01"], "C10-3": ["C04"], "C05-3": ["C01"],
+         "C03-1": ["C07"], "C04-2": ["C07"], "C07-1": ["C04"], "C01-1": ["C10"], "C10-1": ["C01"], "C19-1": ["C03"], "C19-2": ["C03"],
          "C09-2": ["C03"], "C05-2": ["C10"], "C10-2": ["C04"]}
 
 def clean():
